@@ -214,7 +214,7 @@ func (m *prioMon) OnEvent(w *vrt.World, ev *vrt.Event) {
 				m.f.fail("C17", "the discipline read from a channel after RemoveInput / replacement of it had returned (input %d)", i)
 			}
 			if it, ok := ev.Val.(Item); ok {
-				if m.inHand != nil && m.cfg.Stop != "stop" && m.cfg.Stop != "cancel" {
+				if m.inHand != nil && !isRough(m.cfg) {
 					m.f.fail("C02", "item %v was read from its input but never written to the output (next item %v read)", *m.inHand, it)
 					m.f.fail("C17", "item %v was read from its input but never written to the output (next item %v read)", *m.inHand, it)
 				}
@@ -327,7 +327,7 @@ func (m *prioMon) onDeliver(w *vrt.World, ev *vrt.Event) {
 		}
 		m.f.fail("C02", "item %v of the input registered for priority %d delivered with priority %d", it, want, p)
 	}
-	rough := m.cfg.Stop == "stop" || m.cfg.Stop == "cancel"
+	rough := isRough(m.cfg)
 	if it.Seq != m.nextSeq[it.In] && !(rough && it.Seq > m.nextSeq[it.In] && it.Seq < m.written[it.In]) {
 		// under a rough stop an item read but not delivered is lost: what is
 		// delivered must still be an in-order duplicate-free subsequence (C16)
@@ -501,7 +501,7 @@ func newPrio(c Cfg, w *vrt.World) *explore.Instance {
 			m.out = vrt.NameChan[prio1.Prioritized[Item]](output, "out")
 			m.fb = vrt.NameChan[uint](feedback, "feedback")
 			o := prio1.Opts[Item]{Divider: divw.v1, Feedback: feedback, HandlersQuantity: c.H, Inputs: inMap, Output: output}
-			if c.Stop == "cancel" {
+			if c.Stop == "cancel" || c.Stop == "both" {
 				o.Ctx, v1.cancel = vcontext.WithCancel(vcontext.Background())
 			}
 			d, err := prio1.New(o)
@@ -541,7 +541,7 @@ func newPrio(c Cfg, w *vrt.World) *explore.Instance {
 				m.handling--
 			}
 			o := prio1.SimpleOpts[Item]{Divider: divw.v1, Handle: handle, HandlersQuantity: c.H, Inputs: inMap}
-			if c.Stop == "cancel" {
+			if c.Stop == "cancel" || c.Stop == "both" {
 				o.Ctx, v1.cancel = vcontext.WithCancel(vcontext.Background())
 			}
 			d, err := prio1.NewSimple(o)
@@ -777,7 +777,7 @@ func (m *prioMon) terminal(w *vrt.World, out vrt.Outcome, totalItems int, divw *
 		return m.libAlive(w)
 	}
 	v1 := c.Disc == "v1" || c.Disc == "s1"
-	if v1 && (c.Stop == "stop" || c.Stop == "cancel") {
+	if v1 && isRough(c) {
 		// rough termination: Stop()/cancel must have completed, nothing may be left running
 		for _, t := range w.Threads {
 			if t.Name == "stopper" && !t.Done() {
@@ -1026,6 +1026,18 @@ func (m *prioMon) spawnV1Control(c Cfg, v1 *v1Ctl, inputs []chan Item) {
 		vrt.Spawn("stopper", func() {
 			v1.cancel()
 		})
+	case "both":
+		// Stop() from one goroutine, context cancellation from another, in any order
+		vrt.Spawn("stopper", func() {
+			v1.stop()
+			m.stopReturned = true
+			if c.Disc == "s1" && m.handling != 0 {
+				m.f.fail("C16", "Simple.Stop() returned while %d Handle calls are still running", m.handling)
+			}
+		})
+		vrt.Spawn("canceller", func() {
+			v1.cancel()
+		})
 	default:
 		if c.Script > 0 {
 			m.spawnScript(c, v1, inputs)
@@ -1156,3 +1168,5 @@ func (m *prioMon) spawnScript(c Cfg, v1 *v1Ctl, inputs []chan Item) {
 		v1.scriptDone = true
 	})
 }
+
+func isRough(c Cfg) bool { return c.Stop == "stop" || c.Stop == "cancel" || c.Stop == "both" }
